@@ -268,20 +268,28 @@ func vpH_C11_T_stop_vs_expiry() {
 // monitor's Stop unregistered the handlers is still delivered after a completed Stop / StopWithContext
 // (which, unlike Stop, also clears the election's context). Any one or two late notifications, with or
 // without an outage before the stop: nothing crashes, nothing is issued to the store, no claim.
-func vpH_C11_T_late_notify() {
+func vpH_C11_T_late_notify() { vpC11LateNotify(2, 2, false) }
+
+// thorough: all four stop variants (DeleteKey, WaitForDemote), up to three late notifications at symbolic gaps
+func vpH_C11_T_late_notify_deep() { vpC11LateNotify(4, 3, true) }
+
+func vpC11LateNotify(variants, maxN int, gaps bool) {
 	H := time.Second
 	s := vpConnInstance(H, 2*H, nil)
 	s.kv.opLeft = 40
 	dcb, rcb, ccb := s.conn.Opts.DisconnectedCB, s.conn.Opts.ReconnectedCB, s.conn.Opts.ClosedCB
-	variant := vpChoose("variant", 2)
+	variant := vpChoose("variant", variants)
 	if vpChoose("outage-before-stop", 2) == 1 {
 		s.notify(0)
 	}
 	_ = vpDoStop(s.e, variant)
 	vpQuiesce()
 	opsAtRet := len(s.st.issued)
-	n := 1 + vpChoose("late-notifications", 2)
+	n := 1 + vpChoose("late-notifications", maxN)
 	for i := 0; i < n; i++ {
+		if gaps {
+			vpDelay("late-gap", 0, 3*H)
+		}
 		switch vpChoose("late-kind", 3) {
 		case 0:
 			vpEvent("late-notify", "D")
